@@ -70,21 +70,21 @@ Proof. intros H. exact (send_all_resolves ts _ _ _ _ (init_ainv max) H). Qed.
 
 (* ---------------- inbound ---------------- *)
 
-(* the topic last bound to alias a by the (authorised, valid) binding packets of a history
-   (oldest first: a later binding wins) *)
-Definition binds (maxrx a : N) (x : wpkt * bool) : option topic :=
+(* the topic last bound to alias a by the valid binding packets of a history (oldest first: a later binding wins),
+   with the ACL verdict of that topic - authorised or not, the packet binds *)
+Definition binds (maxrx a : N) (x : wpkt * bool) : option (topic * bool) :=
   match walias (fst x), wtopic (fst x) with
-  | Some a', Some t => if (a =? a') && snd x && negb ((a' =? 0) || (maxrx <? a')) then Some t else None
+  | Some a', Some t => if (a =? a') && negb ((a' =? 0) || (maxrx <? a')) then Some (t, snd x) else None
   | _, _ => None
   end.
-Fixpoint last_bound (maxrx : N) (a : N) (h : list (wpkt * bool)) : option topic :=
+Fixpoint last_bound (maxrx : N) (a : N) (h : list (wpkt * bool)) : option (topic * bool) :=
   match h with
   | [] => None
   | x :: r => match last_bound maxrx a r with Some t => Some t | None => binds maxrx a x end
   end.
 
 (* table after processing a history (oldest first) that did not terminate *)
-Fixpoint rx_table (maxrx : N) (tbl : list (N * topic)) (ps : list (wpkt * bool)) : option (list (N * topic)) :=
+Fixpoint rx_table (maxrx : N) (tbl : list (N * (topic * bool))) (ps : list (wpkt * bool)) : option (list (N * (topic * bool))) :=
   match ps with
   | [] => Some tbl
   | (p, au) :: r =>
@@ -94,7 +94,7 @@ Fixpoint rx_table (maxrx : N) (tbl : list (N * topic)) (ps : list (wpkt * bool))
 
 Lemma rx_table_last maxrx ps : forall tbl tbl' a,
   rx_table maxrx tbl ps = Some tbl' ->
-  tlookup a tbl' = match last_bound maxrx a ps with Some t => Some t | None => tlookup a tbl end.
+  tlookup2 a tbl' = match last_bound maxrx a ps with Some t => Some t | None => tlookup2 a tbl end.
 Proof.
   induction ps as [|[p au] r IH]; intros tbl tbl' a H; cbn [rx_table] in H.
   - inversion H; subst. reflexivity.
@@ -110,11 +110,9 @@ Proof.
     + destruct ((a' =? 0) || (maxrx <? a')) eqn:Ebad.
       * inversion E; subst. contradiction.
       * destruct (wtopic p) as [t|] eqn:Et.
-        -- destruct au.
-           ++ inversion E; subst. cbn [tlookup]. rewrite andb_true_r. cbn [negb andb].
-              destruct (a =? a'); reflexivity.
-           ++ inversion E; subst. rewrite andb_false_r. cbn [andb]. reflexivity.
-        -- destruct (tlookup a' tbl); inversion E; subst; [reflexivity|contradiction].
+        -- inversion E; subst. cbn [tlookup2 negb]. rewrite andb_true_r.
+           destruct (a =? a'); reflexivity.
+        -- destruct (tlookup2 a' tbl) as [[t0 au0]|]; inversion E; subst; [reflexivity|contradiction].
     + destruct (wtopic p); inversion E; subst; [reflexivity|contradiction].
 Qed.
 
@@ -123,12 +121,15 @@ Theorem alias_in_resolves maxrx ps tbl a au :
   rx_table maxrx [] ps = Some tbl ->
   snd (rx_step maxrx tbl (mkW None (Some a)) au) =
     if (a =? 0) || (maxrx <? a) then RTerminate
-    else match last_bound maxrx a ps with Some t => RRoute t | None => RTerminate end.
+    else match last_bound maxrx a ps with
+         | Some (t, allowed) => if allowed then RRoute t else RDrop
+         | None => RTerminate
+         end.
 Proof.
   intros H. unfold rx_step. cbn [walias wtopic].
   destruct ((a =? 0) || (maxrx <? a)); [reflexivity|].
-  rewrite (rx_table_last _ _ _ _ a H). cbn [tlookup].
-  destruct (last_bound maxrx a ps); reflexivity.
+  rewrite (rx_table_last _ _ _ _ a H). cbn [tlookup2].
+  destruct (last_bound maxrx a ps) as [[t0 au0]|]; reflexivity.
 Qed.
 
 Theorem alias_in_invalid_terminates maxrx tbl p au a :
